@@ -1098,8 +1098,7 @@ CtxCase(vk, pr, li, oi, warm) ==
 CtxOK(t) == /\ (t[2] \in {2, 3, 4} => VmKinds[t[1]] = "fixed")            \* pointer probes: fixed-metadata VM
             /\ (VmKinds[t[1]] # "fixed" => t[4] = 1)                        \* offsets only matter there
             /\ (VmKinds[t[1]] = "nodata" => t[3] = 1)
-            \* empty packet: only data_end - data = 0 is required, the pointer value itself is free
-            /\ (CtxPktLens[t[3]] = 0 => t[2] \notin {2, 3})
+            \* (empty packet: both pointer slots are null on every engine)
 CtxCases(u) ==
   { CtxCase(t[1], t[2], t[3], t[4], t[5]) :
       t \in { x \in (1..4) \X (1..12) \X (1..Len(CtxPktLens)) \X (1..Len(OffPairs)) \X {0, 1, 2} :
